@@ -318,7 +318,8 @@ async def _interp(run: Run, sdef: dict, ctx: Context, ev: Any, rn: int) -> Any:
         elif op == "send":
             if run.spec.get("det_uids"):
                 nsent = sum(1 for a in sdef["script"][: sdef["script"].index(act)] if a[0] == "send")
-                sent = ET.mk(act[1], (uid or 0) * 8 + 1 + nsent, act[3] if len(act) > 3 else None)
+                # "same_uid_sends": a batch of content-identical events (Work() x N) -- the ticks carrying them serialise identically
+                sent = ET.mk(act[1], (uid or 0) * 8 + 1 + (0 if run.spec.get("same_uid_sends") else nsent), act[3] if len(act) > 3 else None)
             else:
                 sent = ET.mk(act[1], run.fresh(), act[3] if len(act) > 3 else None)
             run.trace.steps.append(("sent", name, uid, rn, asyncio.get_event_loop().time(),
